@@ -1,5 +1,5 @@
 """The recorded pass of the two experiments on independent changes (DESIGN §7.1, §8):
-   * seeded property-BREAKING changes (three rounds; stored as seeded/<id>-<A…F>/), which the target check must catch, and
+   * seeded property-BREAKING changes (four rounds; stored as seeded/<id>-<A…H>/), which the target check must catch, and
    * HARMLESS changes (stored as harmless/<id>-<A…C>/), on which it must stay silent.
 
   python -m harness.campaign confirm [--jobs 8] [ids…]   phase A: every change is confirmed in its own scratch worktree of /repo
@@ -24,7 +24,7 @@ from concurrent.futures import ThreadPoolExecutor
 VERIF = os.path.dirname(os.path.dirname(os.path.abspath(__file__)))
 PY = "/venv/bin/python"
 TARGET = os.environ.get("SEED_REPO", "/repo")
-ROUNDS = (("seed", "AB", "AB"), ("seed2", "AB", "CD"), ("seed3", "AB", "EF"))
+ROUNDS = (("seed", "AB", "AB"), ("seed2", "AB", "CD"), ("seed3", "AB", "EF"), ("seed4", "AB", "GH"))
 ALL = ["C%02d" % i for i in range(1, 21)]
 
 
@@ -68,8 +68,6 @@ def confirm_one(ch):
     kind, pid, label, patch, demo, metaf, rnd = ch
     out = os.path.join(VERIF, kind, "%s-%s" % (pid, label))
     os.makedirs(out, exist_ok=True)
-    shutil.copy(patch, os.path.join(out, "patch.diff"))
-    shutil.copy(demo, os.path.join(out, "demo.py"))
     meta = json.load(open(metaf))
     sha = hashlib.sha256(open(patch, "rb").read()).hexdigest()[:16]
     old = {}
@@ -79,7 +77,10 @@ def confirm_one(ch):
         except Exception:
             old = {}
     if old.get("source_patch_sha") == sha and old.get("confirmed_at_repo_head") == head() and old.get("what_i_ran", {}).get("confirmed") is True:
-        return "%s-%s %s: confirmed earlier (%s)" % (pid, label, kind, old["what_i_ran"]["confirmed"])
+        if sh(["git", "-C", "/repo", "apply", "--check", os.path.join(out, "patch.diff")])[0] == 0:
+            return "%s-%s %s: confirmed earlier (%s)" % (pid, label, kind, old["what_i_ran"]["confirmed"])
+    shutil.copy(patch, os.path.join(out, "patch.diff"))
+    shutil.copy(demo, os.path.join(out, "demo.py"))
     ran = {}
     wt = "/tmp/campaign_%s_%s_%s" % (kind, pid, label)
     sh(["git", "-C", "/repo", "worktree", "remove", "--force", wt])
